@@ -481,6 +481,11 @@ func (x *Exec) coverAntecedent(st *State, sc *specCtx, name string, e ast.Expr) 
 	if !ok || id.Name != "implies" || len(ce.Args) != 2 {
 		return
 	}
+	if strings.Contains(name, "[alt-") {
+		// a clause labelled alt-...: it speaks about an alternative way of doing the same thing that the code need not
+		// take (e.g. encoding with an Encoder instead of Marshal), so an unreachable guard is not a vacuity alarm
+		return
+	}
 	cname := name + "/antecedent-reachable"
 	o := x.registerCoverAny(cname, "the clause's antecedent can hold (the clause is not vacuous)")
 	var a Term
